@@ -39,8 +39,12 @@ func c19Scenarios(tier string) []e3Scenario {
 	for _, cfg := range cfgs {
 		for _, set := range sets {
 			for _, serve := range []bool{false, true} {
-				if serve && tier != "thorough" && cfg.Kind != "encoding" {
-					continue // quick: ServeHTTP entry only where it installs the encoder itself
+				hwf := set[0] == len(q)-1 || set[len(set)-1] == len(q)-1
+				if serve && tier != "thorough" && cfg.Kind != "encoding" && !hwf {
+					continue // quick: ServeHTTP entry only where it installs the encoder itself or reaches the plain handler
+				}
+				if !serve && hwf && set[0] == set[len(set)-1] {
+					continue // Dispatch never reaches a plain handler
 				}
 				cfg, set, serve := cfg, set, serve
 				bound := 2
@@ -66,10 +70,16 @@ func c19Scenarios(tier string) []e3Scenario {
 							}
 						}})
 					}
+					led := c19Ledger
 					inst.Check = func(x *vsched.Execution) []e3Issue {
 						var out []e3Issue
 						if x.Deadlock {
 							return nil
+						}
+						if cfg.Kind == "encoding" && led != nil {
+							for _, m := range led.report(true) {
+								out = append(out, e3Issue{"oracle:ledger", m})
+							}
 						}
 						for k := range set {
 							if got := c19Key(recs[k]); got != fresh[k] {
